@@ -19,7 +19,8 @@ def ops : P String := do
     wRes wk (Poly.eval p x), wRes wk (Poly.eval q x), wRes wk (Poly.eval sum x), wRes wk (Poly.eval prd x),
     wRes wa (Poly.derivative p), wRes wa (Poly.derivativeN p n), wRes wk (Poly.derivativeAt p x n),
     (match Poly.degree p with | some d => toString d | none => "E"), wBool (Poly.isZero p), toString p.size,
-    wRes wa (Poly.trim p), wRes wk (Poly.get p n), wRes wa (aset p n s)]
+    wRes wa (Poly.trim p), wRes wk (Poly.get p n), wRes wa (aset p n s),
+    wa #[x + s, s, x], wa #[x * s, x + s, s, x], wa (p.push s)]
   pure (" ".intercalate parts)
 
 def polydiv : P String := do
